@@ -425,7 +425,16 @@ int choose(int n)
     case S_PCT:
       return rndi(n);
     case S_TAPE:
-      return take_choice(n);
+    {
+      // option 0 is free; any other option costs one unit of the delay bound (keeps the tree of
+      // executions finite when a harness choice is taken again and again, e.g. a failing exporter)
+      if (S.preempt_used >= S.cfg.preempt_bound)
+        return 0;
+      int c = take_choice(n);
+      if (c != 0)
+        S.preempt_used++;
+      return c;
+    }
     default:
       return 0;
   }
